@@ -960,102 +960,55 @@ Require Verif.Tie.MavenRange.
 Require Verif.Tie.NugetRange.
 Require Verif.Tie.PypiRange.
 Require Verif.Tie.RpmRange.
-Definition C02_tie_alpine_VersionRange_String := Verif.Tie.AlpineRange.tie_alpine_VersionRange_String.
-Print Assumptions C02_tie_alpine_VersionRange_String.
-Definition C02_tie_alpine_VersionRange_Contains := Verif.Tie.AlpineRange.tie_alpine_VersionRange_Contains.
-Print Assumptions C02_tie_alpine_VersionRange_Contains.
-Definition C02_tie_alpm_matches := Verif.Tie.AlpmRange.tie_alpm_matches.
-Print Assumptions C02_tie_alpm_matches.
-Definition C02_tie_alpm_matches_model := Verif.Tie.AlpmRange.tie_alpm_matches_model.
-Print Assumptions C02_tie_alpm_matches_model.
-Definition C02_tie_alpm_contains := Verif.Tie.AlpmRange.tie_alpm_contains.
-Print Assumptions C02_tie_alpm_contains.
-Definition C02_tie_apache_matches := Verif.Tie.ApacheRange.tie_apache_matches.
-Print Assumptions C02_tie_apache_matches.
-Definition C02_tie_apache_matches_model := Verif.Tie.ApacheRange.tie_apache_matches_model.
-Print Assumptions C02_tie_apache_matches_model.
-Definition C02_tie_apache_contains := Verif.Tie.ApacheRange.tie_apache_contains.
-Print Assumptions C02_tie_apache_contains.
-Definition C02_tie_cargo_caret := Verif.Tie.CargoRange.tie_cargo_caret.
-Print Assumptions C02_tie_cargo_caret.
-Definition C02_tie_cargo_tilde := Verif.Tie.CargoRange.tie_cargo_tilde.
-Print Assumptions C02_tie_cargo_tilde.
-Definition C02_tie_cargo_satisfiesConstraint := Verif.Tie.CargoRange.tie_cargo_satisfiesConstraint.
-Print Assumptions C02_tie_cargo_satisfiesConstraint.
-Definition C02_tie_conan_isOperator := Verif.Tie.ConanRange.tie_conan_isOperator.
-Print Assumptions C02_tie_conan_isOperator.
-Definition C02_tie_conan_VersionRange_constraintSatisfied := Verif.Tie.ConanRange.tie_conan_VersionRange_constraintSatisfied.
-Print Assumptions C02_tie_conan_VersionRange_constraintSatisfied.
-Definition C02_tie_conan_VersionRange_constraintSatisfied_model := Verif.Tie.ConanRange.tie_conan_VersionRange_constraintSatisfied_model.
-Print Assumptions C02_tie_conan_VersionRange_constraintSatisfied_model.
-Definition C02_tie_conan_VersionRange_groupSatisfied := Verif.Tie.ConanRange.tie_conan_VersionRange_groupSatisfied.
-Print Assumptions C02_tie_conan_VersionRange_groupSatisfied.
-Definition C02_tie_conan_VersionRange_Contains := Verif.Tie.ConanRange.tie_conan_VersionRange_Contains.
-Print Assumptions C02_tie_conan_VersionRange_Contains.
-Definition C02_tie_conan_VersionRange_String := Verif.Tie.ConanRange.tie_conan_VersionRange_String.
-Print Assumptions C02_tie_conan_VersionRange_String.
-Definition C02_tie_cran_satisfiesConstraint := Verif.Tie.CranRange.tie_cran_satisfiesConstraint.
-Print Assumptions C02_tie_cran_satisfiesConstraint.
-Definition C02_tie_cran_contains := Verif.Tie.CranRange.tie_cran_contains.
-Print Assumptions C02_tie_cran_contains.
-Definition C02_tie_cran_contains_model := Verif.Tie.CranRange.tie_cran_contains_model.
-Print Assumptions C02_tie_cran_contains_model.
-Definition C02_tie_debian_satisfiesConstraint := Verif.Tie.DebianRange.tie_debian_satisfiesConstraint.
-Print Assumptions C02_tie_debian_satisfiesConstraint.
-Definition C02_tie_debian_satisfiesConstraint_model := Verif.Tie.DebianRange.tie_debian_satisfiesConstraint_model.
-Print Assumptions C02_tie_debian_satisfiesConstraint_model.
-Definition C02_tie_debian_contains := Verif.Tie.DebianRange.tie_debian_contains.
-Print Assumptions C02_tie_debian_contains.
-Definition C02_tie_gem_VersionRange_String := Verif.Tie.GemRange.tie_gem_VersionRange_String.
-Print Assumptions C02_tie_gem_VersionRange_String.
-Definition C02_tie_gem_VersionRange_Contains := Verif.Tie.GemRange.tie_gem_VersionRange_Contains.
-Print Assumptions C02_tie_gem_VersionRange_Contains.
-Definition C02_tie_gentoo_matches := Verif.Tie.GentooRange.tie_gentoo_matches.
-Print Assumptions C02_tie_gentoo_matches.
-Definition C02_tie_gentoo_contains := Verif.Tie.GentooRange.tie_gentoo_contains.
-Print Assumptions C02_tie_gentoo_contains.
-Definition C02_tie_gentoo_contains_model := Verif.Tie.GentooRange.tie_gentoo_contains_model.
-Print Assumptions C02_tie_gentoo_contains_model.
-Definition C02_tie_github_matches := Verif.Tie.GithubRange.tie_github_matches.
-Print Assumptions C02_tie_github_matches.
-Definition C02_tie_github_matches_model := Verif.Tie.GithubRange.tie_github_matches_model.
-Print Assumptions C02_tie_github_matches_model.
-Definition C02_tie_github_contains := Verif.Tie.GithubRange.tie_github_contains.
-Print Assumptions C02_tie_github_contains.
-Definition C02_tie_golang_VersionRange_String := Verif.Tie.GolangRange.tie_golang_VersionRange_String.
-Print Assumptions C02_tie_golang_VersionRange_String.
-Definition C02_tie_golang_VersionRange_Contains := Verif.Tie.GolangRange.tie_golang_VersionRange_Contains.
-Print Assumptions C02_tie_golang_VersionRange_Contains.
-Definition C02_tie_hex_matches := Verif.Tie.HexRange.tie_hex_matches.
-Print Assumptions C02_tie_hex_matches.
-Definition C02_tie_hex_matches_model := Verif.Tie.HexRange.tie_hex_matches_model.
-Print Assumptions C02_tie_hex_matches_model.
-Definition C02_tie_hex_contains := Verif.Tie.HexRange.tie_hex_contains.
-Print Assumptions C02_tie_hex_contains.
-Definition C02_tie_mattermost_matches := Verif.Tie.MattermostRange.tie_mattermost_matches.
-Print Assumptions C02_tie_mattermost_matches.
-Definition C02_tie_mattermost_matches_model := Verif.Tie.MattermostRange.tie_mattermost_matches_model.
-Print Assumptions C02_tie_mattermost_matches_model.
-Definition C02_tie_mattermost_contains := Verif.Tie.MattermostRange.tie_mattermost_contains.
-Print Assumptions C02_tie_mattermost_contains.
-Definition C02_tie_maven_satisfiesConstraint := Verif.Tie.MavenRange.tie_maven_satisfiesConstraint.
-Print Assumptions C02_tie_maven_satisfiesConstraint.
-Definition C02_tie_maven_contains := Verif.Tie.MavenRange.tie_maven_contains.
-Print Assumptions C02_tie_maven_contains.
-Definition C02_tie_nuget_matches := Verif.Tie.NugetRange.tie_nuget_matches.
-Print Assumptions C02_tie_nuget_matches.
-Definition C02_tie_nuget_matches_model := Verif.Tie.NugetRange.tie_nuget_matches_model.
-Print Assumptions C02_tie_nuget_matches_model.
-Definition C02_tie_nuget_contains := Verif.Tie.NugetRange.tie_nuget_contains.
-Print Assumptions C02_tie_nuget_contains.
-Definition C02_tie_pypi_VersionRange_String := Verif.Tie.PypiRange.tie_pypi_VersionRange_String.
-Print Assumptions C02_tie_pypi_VersionRange_String.
-Definition C02_tie_pypi_VersionRange_Contains := Verif.Tie.PypiRange.tie_pypi_VersionRange_Contains.
-Print Assumptions C02_tie_pypi_VersionRange_Contains.
-Definition C02_tie_rpm_satisfiesRPMConstraint := Verif.Tie.RpmRange.tie_rpm_satisfiesRPMConstraint.
-Print Assumptions C02_tie_rpm_satisfiesRPMConstraint.
-Definition C02_tie_rpm_satisfiesRPMConstraint_model := Verif.Tie.RpmRange.tie_rpm_satisfiesRPMConstraint_model.
-Print Assumptions C02_tie_rpm_satisfiesRPMConstraint_model.
-Definition C02_tie_rpm_contains := Verif.Tie.RpmRange.tie_rpm_contains.
-Print Assumptions C02_tie_rpm_contains.
+Definition C02_tie_alpine_VersionRange_String := @Verif.Tie.AlpineRange.tie_alpine_VersionRange_String.
+Definition C02_tie_alpine_VersionRange_Contains := @Verif.Tie.AlpineRange.tie_alpine_VersionRange_Contains.
+Definition C02_tie_alpm_matches := @Verif.Tie.AlpmRange.tie_alpm_matches.
+Definition C02_tie_alpm_matches_model := @Verif.Tie.AlpmRange.tie_alpm_matches_model.
+Definition C02_tie_alpm_contains := @Verif.Tie.AlpmRange.tie_alpm_contains.
+Definition C02_tie_apache_matches := @Verif.Tie.ApacheRange.tie_apache_matches.
+Definition C02_tie_apache_matches_model := @Verif.Tie.ApacheRange.tie_apache_matches_model.
+Definition C02_tie_apache_contains := @Verif.Tie.ApacheRange.tie_apache_contains.
+Definition C02_tie_cargo_caret := @Verif.Tie.CargoRange.tie_cargo_caret.
+Definition C02_tie_cargo_tilde := @Verif.Tie.CargoRange.tie_cargo_tilde.
+Definition C02_tie_cargo_satisfiesConstraint := @Verif.Tie.CargoRange.tie_cargo_satisfiesConstraint.
+Definition C02_tie_conan_isOperator := @Verif.Tie.ConanRange.tie_conan_isOperator.
+Definition C02_tie_conan_VersionRange_constraintSatisfied := @Verif.Tie.ConanRange.tie_conan_VersionRange_constraintSatisfied.
+Definition C02_tie_conan_VersionRange_constraintSatisfied_model := @Verif.Tie.ConanRange.tie_conan_VersionRange_constraintSatisfied_model.
+Definition C02_tie_conan_VersionRange_groupSatisfied := @Verif.Tie.ConanRange.tie_conan_VersionRange_groupSatisfied.
+Definition C02_tie_conan_VersionRange_Contains := @Verif.Tie.ConanRange.tie_conan_VersionRange_Contains.
+Definition C02_tie_conan_VersionRange_String := @Verif.Tie.ConanRange.tie_conan_VersionRange_String.
+Definition C02_tie_cran_satisfiesConstraint := @Verif.Tie.CranRange.tie_cran_satisfiesConstraint.
+Definition C02_tie_cran_contains := @Verif.Tie.CranRange.tie_cran_contains.
+Definition C02_tie_cran_contains_model := @Verif.Tie.CranRange.tie_cran_contains_model.
+Definition C02_tie_debian_satisfiesConstraint := @Verif.Tie.DebianRange.tie_debian_satisfiesConstraint.
+Definition C02_tie_debian_satisfiesConstraint_model := @Verif.Tie.DebianRange.tie_debian_satisfiesConstraint_model.
+Definition C02_tie_debian_contains := @Verif.Tie.DebianRange.tie_debian_contains.
+Definition C02_tie_gem_VersionRange_String := @Verif.Tie.GemRange.tie_gem_VersionRange_String.
+Definition C02_tie_gem_VersionRange_Contains := @Verif.Tie.GemRange.tie_gem_VersionRange_Contains.
+Definition C02_tie_gentoo_matches := @Verif.Tie.GentooRange.tie_gentoo_matches.
+Definition C02_tie_gentoo_contains := @Verif.Tie.GentooRange.tie_gentoo_contains.
+Definition C02_tie_gentoo_contains_model := @Verif.Tie.GentooRange.tie_gentoo_contains_model.
+Definition C02_tie_github_matches := @Verif.Tie.GithubRange.tie_github_matches.
+Definition C02_tie_github_matches_model := @Verif.Tie.GithubRange.tie_github_matches_model.
+Definition C02_tie_github_contains := @Verif.Tie.GithubRange.tie_github_contains.
+Definition C02_tie_golang_VersionRange_String := @Verif.Tie.GolangRange.tie_golang_VersionRange_String.
+Definition C02_tie_golang_VersionRange_Contains := @Verif.Tie.GolangRange.tie_golang_VersionRange_Contains.
+Definition C02_tie_hex_matches := @Verif.Tie.HexRange.tie_hex_matches.
+Definition C02_tie_hex_matches_model := @Verif.Tie.HexRange.tie_hex_matches_model.
+Definition C02_tie_hex_contains := @Verif.Tie.HexRange.tie_hex_contains.
+Definition C02_tie_mattermost_matches := @Verif.Tie.MattermostRange.tie_mattermost_matches.
+Definition C02_tie_mattermost_matches_model := @Verif.Tie.MattermostRange.tie_mattermost_matches_model.
+Definition C02_tie_mattermost_contains := @Verif.Tie.MattermostRange.tie_mattermost_contains.
+Definition C02_tie_maven_satisfiesConstraint := @Verif.Tie.MavenRange.tie_maven_satisfiesConstraint.
+Definition C02_tie_maven_contains := @Verif.Tie.MavenRange.tie_maven_contains.
+Definition C02_tie_nuget_matches := @Verif.Tie.NugetRange.tie_nuget_matches.
+Definition C02_tie_nuget_matches_model := @Verif.Tie.NugetRange.tie_nuget_matches_model.
+Definition C02_tie_nuget_contains := @Verif.Tie.NugetRange.tie_nuget_contains.
+Definition C02_tie_pypi_VersionRange_String := @Verif.Tie.PypiRange.tie_pypi_VersionRange_String.
+Definition C02_tie_pypi_VersionRange_Contains := @Verif.Tie.PypiRange.tie_pypi_VersionRange_Contains.
+Definition C02_tie_rpm_satisfiesRPMConstraint := @Verif.Tie.RpmRange.tie_rpm_satisfiesRPMConstraint.
+Definition C02_tie_rpm_satisfiesRPMConstraint_model := @Verif.Tie.RpmRange.tie_rpm_satisfiesRPMConstraint_model.
+Definition C02_tie_rpm_contains := @Verif.Tie.RpmRange.tie_rpm_contains.
+Definition C02_ties_all := (C02_tie_alpine_VersionRange_Contains, (C02_tie_alpine_VersionRange_String, (C02_tie_alpm_contains, (C02_tie_alpm_matches, (C02_tie_alpm_matches_model, (C02_tie_apache_contains, (C02_tie_apache_matches, (C02_tie_apache_matches_model, (C02_tie_cargo_caret, (C02_tie_cargo_satisfiesConstraint, (C02_tie_cargo_tilde, (C02_tie_conan_VersionRange_Contains, (C02_tie_conan_VersionRange_String, (C02_tie_conan_VersionRange_constraintSatisfied, (C02_tie_conan_VersionRange_constraintSatisfied_model, (C02_tie_conan_VersionRange_groupSatisfied, (C02_tie_conan_isOperator, (C02_tie_cran_contains, (C02_tie_cran_contains_model, (C02_tie_cran_satisfiesConstraint, (C02_tie_debian_contains, (C02_tie_debian_satisfiesConstraint, (C02_tie_debian_satisfiesConstraint_model, (C02_tie_gem_VersionRange_Contains, (C02_tie_gem_VersionRange_String, (C02_tie_gentoo_contains, (C02_tie_gentoo_contains_model, (C02_tie_gentoo_matches, (C02_tie_github_contains, (C02_tie_github_matches, (C02_tie_github_matches_model, (C02_tie_golang_VersionRange_Contains, (C02_tie_golang_VersionRange_String, (C02_tie_hex_contains, (C02_tie_hex_matches, (C02_tie_hex_matches_model, (C02_tie_mattermost_contains, (C02_tie_mattermost_matches, (C02_tie_mattermost_matches_model, (C02_tie_maven_contains, (C02_tie_maven_satisfiesConstraint, (C02_tie_nuget_contains, (C02_tie_nuget_matches, (C02_tie_nuget_matches_model, (C02_tie_pypi_VersionRange_Contains, (C02_tie_pypi_VersionRange_String, (C02_tie_rpm_contains, (C02_tie_rpm_satisfiesRPMConstraint, C02_tie_rpm_satisfiesRPMConstraint_model)))))))))))))))))))))))))))))))))))))))))))))))).
+Print Assumptions C02_ties_all.
 (* ====== ties to the source: END ====== *)
